@@ -12,6 +12,9 @@ from ..sched import celldrv, oracles
 
 TRAITS = ['T0', 'T1', 'T2', 'T3']
 TRAIT_BIT = {'T0': 2, 'T1': 4, 'T2': 8, 'T3': 16}
+# traits that are declared nowhere and that no server reports until op_new_trait_then_allocation introduces them
+NEW_TRAITS = ['N%d' % i for i in range(8)]
+TRAIT_BIT.update({t: 32 << i for i, t in enumerate(NEW_TRAITS)})
 UNKNOWN_TRAIT = 'zz-unknown'
 
 
@@ -94,7 +97,7 @@ MWEIGHTS = {
     'blacklist': 2, 'group': 3, 'del_group': 1, 'clock': 6, 'cell_event': 1,
     'integrity': 2, 'restart': 0, 'noop': 1, 'blackout_server': 1, 'partition_schedule': 1, 'bucket_new': 1,
     'stale_finished': 1, 'swap_apps': 1, 'retention_update': 1, 'bucket_remove': 0, 'server_delete_event_lost': 1,
-    'servers_reload_all': 1, 'bucket_reparent': 0, 'stale_presence': 2, 'maintenance': 2, 'group_squeeze': 3, 'blackout_then_redeclare': 2, 'agent_reregisters': 2, 'server_stub': 1,       # bucket_reparent: C11 only (its profile)
+    'servers_reload_all': 1, 'bucket_reparent': 0, 'stale_presence': 2, 'maintenance': 2, 'group_squeeze': 3, 'blackout_then_redeclare': 2, 'agent_reregisters': 2, 'server_stub': 1, 'new_trait_then_allocation': 1,       # bucket_reparent: C11 only (its profile)
 }
 
 
@@ -284,7 +287,7 @@ class MasterDriver:
                'up_since': int(self.clock.peek()) - rng.choice([0, 3600, 86400 * 3, 86400 * 10, 86400 * 10, 86400 * 17])}
         return rec
 
-    def op_server_new(self, parent=None):
+    def op_server_new(self, parent=None, extra_traits=()):
         rng = self.rng
         name = 's%d' % self._next()
         label = rng.choice(self.labels)
@@ -292,7 +295,7 @@ class MasterDriver:
         if self.partition_per_rack:
             # partitions laid out along the topology: all servers of a rack belong to one partition
             label = self.rack_label.setdefault(parent, label)
-        traits = [t for t in TRAITS if self.traits_on and rng.random() < 0.4]
+        traits = [t for t in TRAITS if self.traits_on and rng.random() < 0.4] + list(extra_traits)
         self.pending_known = getattr(self, 'pending_known', set()) | set(traits)
         cap = self.gen_cap()
         self.api.create_server(self.admin, name, parent, label)
@@ -302,6 +305,23 @@ class MasterDriver:
         self.Z['servers'][name] = dict(rec=rec, cap=cap, label=label, parent=parent, traits=traits)
         self._presence_up(name)
         self.ops.append(('server_new', name, rec))
+        return name
+
+    def op_new_trait_then_allocation(self):
+        """An operator doing two legal things in quick succession: a server that reports a trait nobody declared or
+        reported before is configured and, right behind it, an allocation that requires that trait (and an assignment
+        into it).  The master handles events in creation order, so it has a code for the trait when it loads the
+        allocations - also when both events are still pending together.  Nothing else happens before the delivery."""
+        free = [t for t in NEW_TRAITS if t not in self.known_traits and t not in getattr(self, 'pending_known', set())]
+        if not self.traits_on or not free or self.master is None or getattr(self, 'master_died', None):
+            return None
+        t = free[0]
+        name = self.op_server_new(extra_traits=[t])
+        label = self.Z['servers'][name]['label']
+        self.op_allocations(force=(label, t))
+        self.must_settle = True
+        self.mon.count('allocation_requires_trait_introduced_by_a_server_event_still_pending')
+        return t
 
     def _presence_up(self, name):
         cl = self.srv.client('node-' + name)
@@ -581,11 +601,26 @@ class MasterDriver:
         self.ops.append(('server_stub', name))
         self.mon.count('server_record_with_empty_payload')
 
-    def op_allocations(self, initial=False):
+    def op_allocations(self, initial=False, force=None):
         rng = self.rng
         allocs = []
         used_patterns = set()
         patterns = list(self.appnames) + [p + '.*' for p in self.proids] + [p + '.app*' for p in self.proids]
+        self.trait_alloc = None
+        if force is not None:
+            # one allocation of the given partition requires the given (just introduced) trait; the application
+            # '<proid>.nt' is assigned to it first of all (listed nowhere else)
+            label, t = force
+            app_id = self.proids[0] + '.nt'
+            res = [rng.choice([0, 1, 2]) * 1024, rng.choice([0, 1, 2]) * 100, rng.choice([0, 1, 2]) * 1024]
+            obj = {'name': 'ntenant', 'partition': label, 'memory': spell_mb(rng, res[0]),
+                   'cpu': celldrv.spell_cpu(rng, res[1]), 'disk': spell_mb(rng, res[2]), 'rank': rng.choice([100, 50, 120]),
+                   'rank_adjustment': 0, 'max_utilization': None, 'traits': [t],
+                   'assignments': [{'pattern': app_id, 'priority': rng.choice([1, 10, 50])}]}
+            obj['_res'] = res
+            obj['_eff'] = self._effective_traits(obj['traits'], assume_known={t})
+            allocs.append(obj)
+            self.trait_alloc = dict(app_id=app_id, key=(label, ('ntenant',)), trait=t)
         for label in self.labels:
             for t in self.tenants:
                 if rng.random() < 0.75:
@@ -626,6 +661,8 @@ class MasterDriver:
             return
         # the listing order is the administrator's: children may come before their parents
         rng.shuffle(allocs)
+        if force is not None:
+            allocs.sort(key=lambda a: a['name'] != 'ntenant')        # (stable) its assignment is listed first of all
         wire = [{k: v for k, v in a.items() if not k.startswith('_')} for a in allocs]
         self.api.update_allocations(self.admin, wire)
         self.Z['allocs'] = allocs
@@ -742,6 +779,7 @@ class MasterDriver:
         other = self.rng.choice([x for x in servers if x != s])
         data = self.zkutils.get_default(self.admin, z.path.placement(s, a))
         self.zkutils.put(self.admin, z.path.placement(other, a), data)
+        self.planted_apps = getattr(self, 'planted_apps', set()) | {a}
         self.ops.append(('plant_duplicate', a, s, other))
         self.mon.count('planted_duplicates')
         return True
@@ -783,6 +821,8 @@ class MasterDriver:
     # ------------------------------------------------------------------
     def random_op(self):
         rng = self.rng
+        if getattr(self, 'must_settle', False):
+            return 'noop'           # the two events of op_new_trait_then_allocation are delivered before anything else happens
         w = dict(MWEIGHTS)
         if self.pf.weights:
             w.update(self.pf.weights)
@@ -968,6 +1008,8 @@ class MasterDriver:
             sched = {str(d): [rng.choice([0, 6, 23]), rng.choice([0, 30, 59]), rng.choice([0, 59])] for d in days}
             self.zkutils.put(self.admin, self.z.path.partition(lb), {'reboot-schedule': sched} if rng.random() < 0.85 else {})
             self.ops.append(('partition_schedule', lb, sched))
+        elif kind == 'new_trait_then_allocation':
+            self.op_new_trait_then_allocation()
         elif kind == 'integrity':
             return 'integrity'
         elif kind == 'restart':
@@ -991,6 +1033,7 @@ class MasterDriver:
         for zs in self.Z['servers'].values():
             self.known_traits |= set(zs['traits'])
         self.pending_known = set()
+        self.must_settle = False
         for a in self.Z['allocs']:
             a['_eff'] = self._effective_traits(a['traits'])
         for b, parent in self.Z['buckets'].items():
@@ -1027,13 +1070,13 @@ class MasterDriver:
         self.sync_H()
         return t_lo, t_hi
 
-    def _effective_traits(self, names):
+    def _effective_traits(self, names, assume_known=()):
         """What an allocation's trait list means when the master loads it: a trait it
         has no code for (declared nowhere, reported by no loaded server) is a requirement
         no server meets."""
         b = 0
         for n in names or []:
-            b |= TRAIT_BIT[n] if n in TRAIT_BIT and n in self.known_traits else 1
+            b |= TRAIT_BIT[n] if n in TRAIT_BIT and (n in self.known_traits or n in assume_known) else 1
         return b
 
     def _between_operator_writes(self, client, op, path):
@@ -1108,6 +1151,7 @@ class MasterDriver:
             if not self.deliver():
                 break
         self._learn_traits()
+        self.must_settle = False
 
     # ------------------------------------------------------------------
     def sync_H(self):
